@@ -52,6 +52,7 @@ func verifMarkExprs() []string {
 		"l[*]", "l[*].x", "o[*].x", "o.*.x", "[a, b][*]", "{x = a}[*].x",
 		"!a", "!(a && b)", "(a || b) && c", "a ? (b || c) : (b && c)",
 		"[for v in l : v]", "{for k, v in o : k => v}", "[for v in l : v if a]",
+		"{for k, v in o2 : k => v if a}", "{for k, v in o2 : k => v if k == ks}", "{for k, v in o2 : k => v if !a}", "{for k, v in o2 : \"g\" => v... if k == ks}", "[for v in l2 : v if v == ki]", "[for i, v in l2 : v if i == ki]",
 		"l[0]", "o.x", "o[\"x\"]", "u.x", "u[\"x\"]", "ul[0]", "%{ for x in ul }${x}%{ endfor }", "a%{ for x in ul }${x}%{ endfor }b", "%{ for x in l }${x.x}%{ endfor }", "o2[ks]", "l2[ki]", "t2[ki]", "id(ul...)", "id(dy...)", "id(l...)", "id(us)", "{(us) = 1}", "{\"${us}\" = a}", "{a = 1, (us) = 2}", "[for x in dy : x]", "{for k, x in dy : k => x}", "[for x in ul : x]", "{for k, x in l : k => x.x}", "[for x in l : x.x if a]", "\"p${us}\"", "\"${us}${a}\"", "us == \"k\"", "\"${a}\"", "\"x${a}y${b}\"", "%{ if a }yes%{ else }no%{ endif }",
 	)
 	return out
